@@ -274,6 +274,24 @@ theorem concurrent_register (cfg : Cfg) (acts : List CAct) :
   have h := this {} (cinv_init cfg)
   exact ⟨h.props, h.typed⟩
 
+/-! ### the properties of one object are registers of their own -/
+
+theorem save_get_self (s : St) (n : Nat) (v : PVal) : (save s n v).get n = some v := by
+  simp [save, St.get, List.find?]
+
+/-- a write to one property leaves every other property of the object as it was -/
+theorem save_get_other (s : St) (n m : Nat) (v : PVal) (h : m ≠ n) : (save s m v).get n = s.get n := by
+  have : (m == n) = false := by simpa using h
+  simp [save, St.get, List.find?, this]
+
+/-- **A property is what was last written to it**, whatever is written to the other properties of the object
+    meanwhile and however the steps of those writes interleave: the value read is the latest committed write
+    *to that property*. -/
+theorem independent_registers (cfg : Cfg) (acts : List CAct) (n : Nat) :
+    (crun cfg {} acts).st.get n = ((crun cfg {} acts).committed.reverse.find? (·.1 == n)).map (·.2) := by
+  unfold St.get
+  rw [(concurrent_register cfg acts).1]
+
 /-! ### non-vacuity; and the dispatcher before repair 674b08f -/
 
 def exCfg : Cfg := { decls := [⟨1, 101, 0⟩, ⟨2, 102, 3⟩], valid := fun _ d => d % 7 != 3 }
